@@ -83,7 +83,7 @@ func VH_C12_count_equals_ids() {
 
 // VH_C12_match_consumers: names and pattern symbolic; every consumer of the range shortcut against a plain
 // filter by glob.Match.
-//verif:cfg quick.b_pattern_bytes=0..2 thorough.b_pattern_bytes=0..3 quick.b_names=3_x_1_symbolic_byte thorough.b_names=3_x_1..2_symbolic_bytes maxwall=3000 b_consumers=SCAN_MATCH,SCAN_DESC_MATCH,KEYS,PDEL,CHANS,PDELCHAN,HOOKS,PDELHOOK ignorego=1
+//verif:cfg quick.b_pattern_bytes=0..2 thorough.b_pattern_bytes=0..3 quick.b_names=2_x_1_symbolic_byte+1_fixed thorough.b_names=3_x_1..2_symbolic_bytes maxwall=3000 b_consumers=SCAN_MATCH,SCAN_DESC_MATCH,KEYS,PDEL,CHANS,PDELCHAN,HOOKS,PDELHOOK ignorego=1
 func VH_C12_match_consumers() {
 	s := vhServer()
 	np := 2
@@ -95,7 +95,7 @@ func VH_C12_match_consumers() {
 	if vthorough() {
 		names = [3]string{vnondetString(2), vnondetString(2), vnondetString(2)}
 	} else {
-		names = [3]string{vnondetStringN(1), vnondetStringN(1), vnondetStringN(1)}
+		names = [3]string{vnondetStringN(1), vnondetStringN(1), "m"}
 	}
 	vassume(names[0] != "" && names[1] != "" && names[2] != "")
 	vassume(names[0] != names[1] && names[0] != names[2] && names[1] != names[2])
@@ -211,6 +211,62 @@ func vhPrefixEndsFF(p string) bool {
 		n++
 	}
 	return n > 0 && p[n-1] == 0xFF
+}
+
+// VH_C12_search_match: for SEARCH, MATCH filters the VALUES (which need not be unique) - literal patterns, globs
+// and the range shortcut alike: exactly the objects whose value matches come back, in value order, ASC or DESC,
+// and COUNT agrees.
+//verif:cfg quick.b_objects=4(values:_2_x_1_symbolic_byte,_duplicates_allowed,+m,+mm) thorough.b_objects=4(values:_3_x_1_symbolic_byte,+mm) quick.b_pattern_bytes=0..2 thorough.b_pattern_bytes=0..3 b_order=ASC|DESC ignorego=1
+func VH_C12_search_match() {
+	s := vhServer()
+	np := 2
+	if vthorough() {
+		np = 3
+	}
+	pat := vnondetString(np)
+	vals := [4]string{vnondetStringN(1), vnondetStringN(1), "m", "mm"}
+	if vthorough() {
+		vals[2] = vnondetStringN(1)
+	}
+	ids := [4]string{"id3", "id1", "id4", "id2"}
+	for i := range vals {
+		_, _, err := vhDo(s, "SET", "k", ids[i], "STRING", vals[i])
+		vassert("C12.K1.search_dataset", err == nil)
+	}
+	vhDo(s, "SET", "k", "pt", "POINT", "1", "1") // not a string: never part of a SEARCH
+	desc := vnondetBool()
+	q := []string{"SEARCH", "k"}
+	if desc {
+		q = append(q, "DESC")
+	}
+	q = append(q, "MATCH", pat)
+	r, _, err := vhDo(s, append(append([]string(nil), q...), "IDS")...)
+	if err != nil {
+		vreach("search-rejected")
+		vassert("C12.K1.only_empty_patterns_are_rejected", pat == "")
+		return
+	}
+	_, got := vhIDsOf(r)
+	want := 0
+	for i := range vals {
+		m, _ := glob.Match(pat, vals[i])
+		found := 0
+		for _, id := range got {
+			if id == ids[i] {
+				found++
+			}
+		}
+		if m {
+			want++
+		}
+		kf := vknown("C12-glob-prefix-ff") && vhPrefixEndsFF(pat)
+		vassertK("C12.K1.search_match_filters_values", found == vhB2I(m), kf, "C12-glob-prefix-ff")
+	}
+	kf := vknown("C12-glob-prefix-ff") && vhPrefixEndsFF(pat)
+	vassertK("C12.K1.search_match_nothing_else", len(got) == want, kf, "C12-glob-prefix-ff")
+	cnt := vhCountOf(s, append(append([]string(nil), q...), "COUNT")...)
+	vassert("C12.K3.search_match_count_equals_ids", cnt == len(got))
+	vobs("searchmatch", pat, vals[0], vals[1], vals[2], desc, len(got))
 }
 
 // ---- WHERE / WHEREIN against the documented value order -------------------------------------------------------
